@@ -324,6 +324,12 @@ func stressRun(rep *vh.Report, sp *StressPlan, tw *traceWriter, seed int64, run 
 		}()
 	}
 	wg.Wait() // every worker returns: each call is under a watchdog
+	if ps := s.takePanics(); len(ps) > 0 {
+		rep.Violate("C17/pool/panic", fmt.Sprintf("panic in the real pool during a concurrent run (seed %d): %s", seed, ps[0]),
+			map[string]any{"kind": "pool-stress", "seed": seed, "run": run, "plan": sp})
+		close(stopClock)
+		return false
+	}
 	if hung.Load() {
 		// some call did not return: is it a lock cycle?
 		d1 := dumpGoroutines()
